@@ -11,6 +11,12 @@ COMMON_NOTE = ('Trusted: assumed contracts for bytes/futures channels/write_all/
                '(handlers run one at a time to completion); Verus/Z3/rustc. Interleavings are reduced to sequences of handler calls by that assumption.')
 
 CLAIMS = {
+    'C03': ('proof', 'Verus discharges, on RxPacketStream::poll_next extracted from the working tree (with the stated rewrites W12/W14/W15/W16), for ALL buffer states and chunkings, no bound: '
+            'a representation invariant (the unread bytes are the most recently delivered ones, a known packet length is the frame length of their head) is preserved; a returned packet is the decoding of exactly '
+            'the next frame of the delivered byte stream and the rest stays buffered; Pending is returned only if the reader itself answered Pending in this call, with no complete packet buffered; '
+            'end-of-stream only if the reader ended or the length field is malformed; the reader is never given an empty buffer; the recursion is partial-correctness only (termination not proved).', '5 C03'),
+    'C16': ('proof', 'Per-call contracts of the two hand-written poll functions only: RxPacketStream::poll_next and SubscribeStream::poll_next return Pending only when their inner source answered Pending in the same call '
+            '(which registered the waker) and then leave the abstract state (consumed boundary, buffered queue) unchanged. The executor-equivalence statement itself, select! re-arming and channel wakeups are assumed (DESIGN.md section 6).', '5 C16'),
     'C05': ('proof', 'Verus discharges, on handle_message/handle_packet and the ContextHandle operations extracted from the working tree, that a pending entry is registered under the '
             'action id of its own channel, that an acknowledgement removes exactly the first pending entry with its (type, id) key and nothing else, '
             'and (as a call-site precondition of oneshot::Sender::send) that an acknowledgement is only ever sent to the operation keyed by it.', '5 C05'),
@@ -23,6 +29,9 @@ CLAIMS = {
             'subscribe() returns the receiving end of the registered sender.', '5 C07'),
     'C08': ('proof', 'Verus discharges a whole-wire postcondition of handle_packet: for every inbound packet and session state the bytes appended are exactly '
             'PUBACK(id)/PUBREC(id)/PUBCOMP(id) for QoS1/QoS2 PUBLISH and PUBREL, and nothing otherwise, independent of subscription identifiers.', '5 C08'),
+    'C09': ('proof', 'Verus discharges on handle_packet: the set of inbound QoS 2 identifiers answered with PUBREC and not yet released is tracked exactly '
+            '(pushed on first delivery, removed by PUBREL, untouched by everything else, cleared by reset_session); a QoS 2 PUBLISH whose identifier is in the set is acknowledged again (C08) '
+            'and leaves every stream untouched; otherwise it is delivered as in C07.', '5 C09'),
     'C10': ('proof', 'Verus discharges the send-quota step contracts of handle_connack/handle_message/handle_packet/retransmit for all u16 values: '
             'quota <= Receive Maximum is invariant, a QoS>0 PUBLISH takes one slot or is refused untouched at 0, PUBACK/PUBCOMP/failing PUBREC free exactly one, '
             'nothing else changes quota or Receive Maximum.', '5 C10'),
